@@ -348,7 +348,7 @@ def r15h(ctx, rep, rule="R15h"):
     rep.floor(rule, "ASCII-only case operations in the character and string procedures", n, 1)
 
 
-FOLDS = ("to_lowercase", "to_uppercase", "fold_case", "to_ascii_lowercase", "to_ascii_uppercase", "foldcase")
+FOLDS = ("to_lowercase", "to_uppercase", "fold_case", "fold_string", "to_ascii_lowercase", "to_ascii_uppercase", "foldcase")
 
 
 def r15i(ctx, rep, rule="R15i"):
@@ -508,6 +508,43 @@ def fresh_results(ctx, rep, rule, variant, ctor, what, mutator, floor_c, floor_b
     rep.floor(rule, "builtins returning newly allocated %ss" % what, m, floor_b)
 
 
+
+def r15n(ctx, rep, rule="R15n"):
+    """case-insensitive comparison of strings is character by character"""
+    facts, cg = ctx["facts"], ctx["cg"]
+    rep.rule(rule, "a string is a vector of characters, also when case is ignored: string-ci=? and its siblings and string-foldcase "
+             "agree with folding each character as char-foldcase does. str::to_lowercase / to_uppercase map a whole string and "
+             "are context-sensitive (a capital sigma at the end of a word becomes the final form), so through them "
+             "(string-ci=? \"aΣ\" \"aσ\") is #f although the strings are equal character by character, and the predicate is not "
+             "transitive. Neither the -ci string procedures (with their closures and the local helpers they call) nor "
+             "string-foldcase call the whole-string case mappings.")
+    n = 0
+    for p, f in sorted(facts.fns.items()):
+        if not p.startswith(STRMOD):
+            continue
+        base = p.split("::{closure")[0].rsplit("::", 1)[-1]
+        if not (base.startswith("string_ci_") or base == "string_foldcase"):
+            continue
+        scope = [f]
+        for bb, t in f.calls():
+            c = callee(t)
+            if c in facts.fns and c.startswith("marwood::vm::builtin::") and c.rsplit("::", 1)[-1].startswith(("fold", "ci_")):
+                scope.append(facts.fns[c])
+                scope += list(facts.closures_of(facts.fns[c]))
+        bad = []
+        for g in scope:
+            for bb, t in g.calls():
+                c = callee(t) or ""
+                if re.search(r"str::<impl str>::to_(lower|upper)case$", c):
+                    bad.append(t["loc"])
+        n += 1
+        key = "%s|%s" % (rule, f.short.replace("vm::builtin::", ""))
+        (rep.ok if not bad else rep.fail)(
+            rule, key, "%s folds no whole string" % f.short if not bad else
+            "%s maps the whole string with str::to_lowercase / to_uppercase: the result depends on where in the string a character "
+            "stands (final sigma), so the comparison disagrees with the character-by-character one" % f.short, bad[:2])
+    rep.floor(rule, "-ci string procedures, their closures, and string-foldcase", n, 6)
+
 def run(ctx, rep):
     units.r15a(ctx, rep)
     units.r15b(ctx, rep)
@@ -517,6 +554,7 @@ def run(ctx, rep):
     r15h(ctx, rep)
     r15i(ctx, rep)
     r15j(ctx, rep)
+    r15n(ctx, rep)
     from . import popbalance
     popbalance.r_arity_table(ctx, rep, "R15k", R7RS_ARITY_C15, "the string and character procedures C15 names")
     from . import numeric
